@@ -48,7 +48,7 @@ def fixed_point(T, x):
 
 
 NAMES = [n for n in TYPES if n not in ('picky', 'pattern', 'date', 'decimal', 'fraction', 'range', 'myint', 'cond_raise', 'pi',
-                                       'tag_ext', 'tag_adj')]      # externally/adjacently tagged unions wrap the variant
+                                       'tag_ext', 'tag_adj', 'opt_tag_ext', 'union_tag_adj')]      # externally/adjacently tagged unions wrap the variant
 
 
 def ORACLE(name, v, grp):
